@@ -870,7 +870,13 @@ def run_check(chk: Check, prop: str) -> None:
     chk.require(judged > 0.5 * len(docs) or any(f["clause"].endswith("client_unreachable") and f["locus"].get("cause") for f in chk.fails), f"only {judged} of {len(docs)} documents could be judged: {stats_json(stats)}")
     names = NEG_C07 if prop == "C07" else NEG_C13
     missing = [n for n in names if n not in chk.cov.get("negative_traces_rejected", {})]
-    chk.require(not missing or not clean, f"negative traces never exercised: {missing}")
+    if missing:
+        # the negatives are corrupted copies of CLEAN observations; a tree that violates the property almost everywhere may
+        # leave none to start from - that must not turn its violations into a machinery failure
+        findings = [f for f in core.load_findings() if f.get("property") == prop]
+        unlisted = any(not any(core._match(e, f["clause"], f["locus"]) for e in findings) for f in chk.fails)
+        chk.require(unlisted, f"negative traces never exercised: {missing}")
+        chk.note_drift(f"{len(missing)} negative trace(s) not exercised: no clean observation to corrupt")
     for c in C07_CLAUSES if prop == "C07" else C13_CLAUSES:
         chk.require(chk.cov["clauses_checked"].get(c, 0) > 0, f"clause {c} was never evaluated")
     if traces:
